@@ -54,6 +54,9 @@ def _status_reader(w, name, context, args):
         r = getattr(context, "rule", None) if "rule" in context else None
         if r is not None:
             r.status
+        sc = getattr(context, "scenario", None) if "scenario" in context else None
+        if sc is not None and name == "after_scenario":
+            sc.status       # the usual "if scenario.status == 'failed': take_screenshot()" in an after hook
 
 
 def _container_skipper(w, name, context, args):
@@ -101,8 +104,8 @@ def h_stage1(sx):
         return w.observable()
 
     ex = None
-    if not faulted:
-        ex = runspec(w, flags)
+    if not faulted and not w.opts.get("nested_steps"):
+        ex = runspec(w, flags)      # (the reference run does not model execute_steps: ground-truth events only there)
 
     if "verdict" in checks or "exitcode" in checks:
         wrong = wrong_events(w, flags)
